@@ -19,6 +19,16 @@ def run(ctx):
         grid.append(dict(MaxFile=3, SyncEvery=3, Sizes={1, 2, 4}, MaxPuts=5))
     dqlib.mc_grid(ctx, grid)
     dqlib.mc_nonvacuity(ctx)
+    # 1b. two crashes: the incarnation after the first crash is used further and crashes again; the
+    # metadata temp file left by the first crash is overwritten in place (stale tail)
+    if q:
+        grid2 = [dict(MaxFile=3, SyncEvery=3, Sizes={1, 2}, MaxPuts=2)]
+    else:
+        grid2 = [dict(MaxFile=3, SyncEvery=3, Sizes={1, 2}, MaxPuts=3),
+                 dict(MaxFile=1, SyncEvery=2, Sizes={1, 2}, MaxPuts=3),
+                 dict(MaxFile=5, SyncEvery=1, Sizes={1, 3}, MaxPuts=3),
+                 dict(MaxFile=3, SyncEvery=2, Sizes={1, 2}, MaxPuts=3, AllowReopen=True)]
+    dqlib.mc_two_crashes(ctx, grid2)
 
     # 2. client histories generated from the level-A contract (exhaustive, short) + long random ones
     rng = random.Random(ctx.seed)
@@ -37,7 +47,10 @@ def run(ctx):
     ctx.log("histories: %d exhaustive-short + %d random" % (nshort, len(hists) - nshort))
 
     # 3. the real queue: record, snapshot at every hook, recover every distinct snapshot
-    events, crashed = dqlib.run_driver(ctx, hists, "c08", levelb=False, timeout=ctx.pick(1500, 6000))
+    # ... and a seeded weighted sample of the first-generation snapshots is reopened, used for a short
+    # second history (hooks snapshotting again) and every second-generation snapshot recovered too
+    events, crashed = dqlib.run_driver(ctx, hists, "c08", levelb=False, timeout=ctx.pick(1500, 6000),
+                                       gen2_permille=ctx.pick(10, 10))
     if crashed:
         last = crashed["last"][-1] if crashed["last"] else {}
         ctx.violation("recovery-panics label=%s" % last.get("label"),
@@ -46,24 +59,70 @@ def run(ctx):
         ctx.sample(dict(panicked_while_recovering=last))
     nrec = sum(1 for e in events if e["ev"] == "rec")
     nontriv = set()
-    labels = {}
+    labels, labels2 = {}, {}
+    gen2ev, cur2, nrec2 = {}, None, 0
     for e in events:
-        if e["ev"] == "rec":
-            labels[e["label"]] = labels.get(e["label"], 0) + 1
-            if e["D"]:
-                nontriv.add((tuple(e["m"]), e["label"], tuple(e["D"])))
+        if e["ev"] == "hist":
+            cur2 = None
+        elif e["ev"] == "gen2":
+            cur2 = e
+            gen2ev[e["g"]] = e
+        elif e["ev"] == "rec":
+            if cur2 is None:
+                labels[e["label"]] = labels.get(e["label"], 0) + 1
+                if e["D"]:
+                    nontriv.add((tuple(e["m"]), e["label"], tuple(e["D"])))
+            else:
+                nrec2 += 1
+                labels2[e["label"]] = labels2.get(e["label"], 0) + 1
+                if e["D"]:
+                    nontriv.add((2, cur2["label"], tuple(e["m"]), e["label"], tuple(e["D"])))
     end = [e for e in events if e["ev"] == "end"]
     if not crashed and (not end or nrec == 0):
         raise Machinery("driver produced no recoveries (dead driver / hooks not firing)")
     needed = {"w_open", "w_write", "m_tmp_write", "m_rename", "take", "r_remove"}
     if not crashed and not needed.issubset(labels):
         raise Machinery("crash points never reached: %s" % (needed - set(labels)))
+    if not crashed and end:
+        if nrec2 == 0 or not {"m_tmp_write", "m_rename", "w_write"}.issubset(labels2):
+            raise Machinery("second-generation crash points never reached: %d recoveries, labels %s" % (nrec2, sorted(labels2)))
+        if end[0].get("gen2_stale_tail_snapshots", 0) == 0:
+            raise Machinery("no second-generation snapshot has a metadata file with a stale tail: the left-over "
+                            "temp file scenario (crash between temp write and rename, shorter text afterwards) was not reached")
 
     # 4. TLC decides every recovery against the level-A contract
+    diverged = []
+
     def on_reject(block, idx):
         ev = block[idx]
         h = block[0]["h"]
         hist = hists[h] if h < len(hists) else None
+        if block[0]["ev"] == "gen2":
+            g = gen2ev.get(block[0]["g"], {})
+            second = dict(first_crash_after=g.get("label"), first_marks_n_c_ws_cs=g.get("m1"), X=g.get("X"), xs=g.get("xs"),
+                          second_history=g.get("ops2"))
+            kind = ev["ev"]
+            if kind == "rec":
+                sig = "recovery-contract gen2 label=%s" % ev["label"]
+                if ev["hang"] or not ev["sentinel"]:
+                    sig = "recovery-hangs gen2 label=%s" % ev["label"]
+                what = ("second crash after %s (first crash after %s, recovery delivered X=%s, then %s): reopened queue "
+                        "delivered %s = positions %s of L = X ++ new puts (hang=%s sentinel=%s extra=%s)" % (
+                            ev["label"], g.get("label"), g.get("X"), json.dumps(g.get("ops2")), ev.get("Dabs"), ev["D"],
+                            ev["hang"], ev["sentinel"], ev["extra"]))
+            elif kind == "take2" and ev["abs"] == 0:
+                sig, what = "gen2-delivers-unknown-message", "the queue reopened on a crash snapshot handed out bytes that are no enqueued message"
+            elif kind == "take2" or (kind == "bad" and ev["detail"].get("in") == "take"):
+                # the reopened queue did not hand out what the recovery of the same snapshot delivered on
+                # another copy: L is not defined for this run; the property does not forbid that
+                diverged.append(dict(gen2=second, event=ev))
+                return
+            elif kind == "bad":
+                sig, what = "gen2-queue-hangs-or-errors", "operation on the reopened queue hung or failed: %s" % json.dumps(ev.get("detail"))
+            else:
+                sig, what = "contract-event gen2 %s" % kind, "event %s rejected by the contract" % json.dumps(ev)
+            ctx.violation(sig, what, dict(history=hist, second_generation=second, prefix=block[:idx + 1][-30:]))
+            return
         if ev["ev"] == "rec":
             what = "crash after %s: reopened queue delivered %s (hang=%s sentinel=%s extra=%s)" % (
                 ev["label"], ev["D"], ev["hang"], ev["sentinel"], ev["extra"])
@@ -76,6 +135,11 @@ def run(ctx):
         ctx.violation(sig, what, dict(history=hist, prefix=block[:idx + 1][-30:]))
 
     ntr, nrej = dqlib.validate_level_a(ctx, events, True, False, on_reject)
+    if diverged:
+        ctx.note("%d second-generation run(s) did not hand out what the recovery of the same snapshot delivered; "
+                 "not judged, e.g. %s" % (len(diverged), json.dumps(diverged[0])[:600]))
+        if len(diverged) * 4 > len(gen2ev):
+            raise Machinery("most second-generation runs diverged from the first-generation recovery")
 
     if not ctx.violations:
         dqlib.selftest_binding(ctx, events, hists)
@@ -86,15 +150,28 @@ def run(ctx):
     cov["distinct_recoveries_run"] = end[0]["distinct_recoveries"] if end else 0
     cov["histories"] = len(hists)
     cov["crash_points_by_label"] = labels
+    if end:
+        cov["second_generation"] = dict(runs=end[0].get("gen2_runs"), recoveries=nrec2,
+                                        distinct_recoveries_run=end[0].get("gen2_distinct_recoveries"),
+                                        snapshots_with_stale_metadata_tail=end[0].get("gen2_stale_tail_snapshots"),
+                                        first_crash_points_by_label=end[0].get("gen2_parents_by_label"),
+                                        second_crash_points_by_label=labels2, diverged_not_judged=len(diverged))
     cov["rule"] = ("histories = all put/take/reopen sequences of the level-A contract of length %d over 3 size classes "
                    "(TLC-enumerated) x segment/sync settings %s, plus seeded random long histories; a crash point = "
                    "every hook firing (after each filesystem mutation / linearization point); each distinct "
                    "(directory content, marks) snapshot is reopened with the real queue; non-trivial = distinct "
-                   "(marks, crash label, delivered run) with a non-empty delivery" % (ctx.pick(5, 6), settings))
+                   "(marks, crash label, delivered run) with a non-empty delivery; second generation: a seeded weighted sample "
+                   "(%d per mille, crashes around the metadata temp file preferred) of the distinct snapshots is reopened, "
+                   "run through 2-6 more operations (put small / put across the segment limit / take / take all, close) with "
+                   "a snapshot at every hook again, every distinct second snapshot is recovered and judged by the same "
+                   "contract over L = (delivery of the first recovery) ++ (later puts)" % (ctx.pick(5, 6), settings, 10))
     for e in events:
         if e["ev"] == "rec" and e["D"] and len(cov["samples"]) < 3:
             ctx.sample(dict(crash_after=e["label"], marks_n_c_ws_cs=e["m"], delivered=e["D"]))
-    ctx.assumptions += ["process crash (memory lost, all written file data kept), not power loss",
+    ctx.assumptions += ["second crash: the content of the incarnation after a crash is what the recovery of the same "
+                        "snapshot delivers on another copy (recovery is deterministic; runs where the reopened queue hands "
+                        "out something else are reported as not judged)",
+                        "process crash (memory lost, all written file data kept), not power loss",
                         "a torn single write() is not a crash point (crashes are placed between filesystem operations)",
                         "level-A contract = C08 statement; the level-B model DiskQueue.tla is checked exhaustively by TLC "
                         "for the listed constants and bound to the code by checks/c09 hook traces"]
